@@ -181,6 +181,79 @@ theorem toEntropy_ok_iff (h0 : Bytes → Nat) (idx : List Nat) (hn : idx.length 
   simp only [hc, hany, Bool.not_true, Bool.false_eq_true, if_false]
   split <;> simp_all
 
+/-- the arithmetic of the five word counts -/
+theorem word_facts (n : Nat) (h : n ∈ wordCounts) :
+    let cs := n / 3
+    let L := (11 * n - cs) / 8
+    11 * n - cs = 8 * L ∧ L ∈ entropySizes ∧ L / 4 = cs ∧ (L * 8 + cs) / 11 = n ∧ cs ≤ 8 ∧ 8 * L + cs = 11 * n := by
+  simp only [wordCounts, mem_cons, mem_nil_iff, or_false] at h
+  rcases h with rfl | rfl | rfl | rfl | rfl <;> decide
+
+theorem flatMap_bits11_length (idx : List Nat) : (idx.flatMap (bitsOf 11)).length = 11 * idx.length := by
+  induction idx with
+  | nil => rfl
+  | cons a t ih => simp [flatMap_cons, bitsOf_length, ih]; omega
+
+/-- bit lists of the same length with the same value are equal -/
+theorem ofBits_inj {a b : List Bool} (hl : a.length = b.length) (h : ofBits a = ofBits b) : a = b := by
+  rw [← bitsOf_ofBits a, ← bitsOf_ofBits b, hl, h]
+
+/-- **words → entropy → words**: whenever `to_entropy` accepts a word list (right length, every word
+in the list, checksum right), `from_entropy` of the answer gives exactly these words back — so the
+two functions are inverse bijections between the entropies of the five lengths and the accepted
+mnemonics (with `entropy_roundtrip`). -/
+theorem words_roundtrip (h0 : Bytes → Nat) (idx : List Nat) (e : Bytes) (hw : ∀ i ∈ idx, i < 2048)
+    (h : toEntropy h0 idx = .ok e) : fromEntropy h0 e = .ok idx := by
+  have hn : idx.length ∈ wordCounts := by
+    by_cases c : idx.length ∈ wordCounts
+    · exact c
+    · exfalso; unfold toEntropy at h; simp [c] at h
+  have hiff := toEntropy_ok_iff h0 idx hn hw
+  simp only at hiff
+  rw [hiff] at h
+  obtain ⟨f1, f2, f3, f4, f5, f6⟩ := word_facts idx.length hn
+  generalize hcs : idx.length / 3 = cs at *
+  generalize hL : (11 * idx.length - cs) / 8 = L at *
+  have hbl := flatMap_bits11_length idx
+  generalize hb : idx.flatMap (bitsOf 11) = bits at *
+  split at h
+  · rename_i hck
+    have he := Except.ok.inj h
+    -- the data part
+    have htl : (bits.take (11 * idx.length - cs)).length = 8 * L := by
+      rw [length_take, hbl, f1]; omega
+    have hel : e.length = L := by rw [← he, length_map, chunksN_length]
+    have hflat : e.flatMap (bitsOf 8) = bits.take (11 * idx.length - cs) := by
+      rw [← he, flatMap_def, map_map]
+      have hl8 := chunksN_lengths 8 L _ htl
+      have : map (bitsOf 8 ∘ ofBits) (chunksN 8 L (bits.take (11 * idx.length - cs))) =
+          map id (chunksN 8 L (bits.take (11 * idx.length - cs))) := by
+        apply map_congr_left
+        intro c hc
+        have := bitsOf_ofBits c
+        rw [hl8 c hc] at this
+        exact this
+      rw [this, map_id, chunksN_flatten 8 L _ htl]
+    -- the checksum part
+    have hdl : (bits.drop (11 * idx.length - cs)).length = cs := by
+      rw [length_drop, hbl]; omega
+    have hcl : ((bitsOf 8 (h0 e)).take cs).length = cs := by
+      rw [length_take, bitsOf_length, Nat.min_eq_left f5]
+    have hcs' : (bitsOf 8 (h0 e)).take cs = bits.drop (11 * idx.length - cs) := by
+      apply ofBits_inj (by rw [hcl, hdl])
+      rw [← he]; exact hck
+    -- put together
+    have hsz : entropySizes.contains e.length = true := by rw [hel]; simpa using f2
+    unfold fromEntropy
+    simp only [hsz, Bool.not_true, Bool.false_eq_true, if_false, not_true_eq_false]
+    rw [hel, f3, hflat, hcs', take_append_drop, f4]
+    have hmap := chunksN_flatMap 11 (bitsOf 11) idx [] (fun x _ => bitsOf_length 11 x)
+    rw [append_nil, hb] at hmap
+    rw [hmap, map_map]
+    have : ∀ x ∈ idx, (ofBits ∘ bitsOf 11) x = id x := fun x hx => ofBits_bitsOf 11 x (by have := hw x hx; omega)
+    rw [map_congr_left this, map_id]
+  · cases h
+
 /-- **a wrong checksum is refused**: … in particular, whenever the checksum bits differ from the
 hash's, the answer is `BadChecksum` — never an entropy. -/
 theorem wrong_checksum_refused (h0 : Bytes → Nat) (idx : List Nat) (hn : idx.length ∈ wordCounts)
